@@ -3,7 +3,7 @@
 src/cat.c and src/cat.h through clang's JSON AST.
 
  T1 enumerators and #defines;  T2 expression-bodied helpers;  T3 the four return-code switches;
- T5 which public functions are lock / body / unlock.
+ T4 the two state dispatchers (Gen/Dispatch.lean);  T5 which public functions are lock / body / unlock.
 
 Every item is either regenerated ("translated") or, when its shape is not recognised, taken from
 the committed expected copy (Gen/Source.expected.lean) and reported as "fallback" — the check
@@ -587,6 +587,159 @@ namespace Cat.Gen
 '''
 
 
+
+# ------------------------------------------------------------------------------------ T4
+# the two state dispatchers (`cat_service`, `unsolicited_events_service`) as Lean `match`es over the
+# model's functions: Gen/Dispatch.lean.  `Proofs/Dispatch.lean` proves them equal to the
+# hand-written `commandService` / `unsolicitedEventsService`.
+
+GEN_DISPATCH = os.path.join(lib.LEAN, "CatVerif/Gen/Dispatch.lean")
+EXPECTED_DISPATCH = os.path.join(lib.LEAN, "CatVerif/Gen/Dispatch.expected.lean")
+
+CSTATE = {"CAT_STATE_ERROR": "error", "CAT_STATE_IDLE": "idle", "CAT_STATE_PARSE_PREFIX": "parsePrefix",
+          "CAT_STATE_PARSE_COMMAND_CHAR": "parseCommandChar", "CAT_STATE_UPDATE_COMMAND_STATE": "updateCommandState",
+          "CAT_STATE_WAIT_READ_ACKNOWLEDGE": "waitReadAck", "CAT_STATE_SEARCH_COMMAND": "searchCommand",
+          "CAT_STATE_COMMAND_FOUND": "commandFound", "CAT_STATE_COMMAND_NOT_FOUND": "commandNotFound",
+          "CAT_STATE_PARSE_COMMAND_ARGS": "parseCommandArgs", "CAT_STATE_PARSE_WRITE_ARGS": "parseWriteArgs",
+          "CAT_STATE_FORMAT_READ_ARGS": "formatReadArgs", "CAT_STATE_WAIT_TEST_ACKNOWLEDGE": "waitTestAck",
+          "CAT_STATE_FORMAT_TEST_ARGS": "formatTestArgs", "CAT_STATE_WRITE_LOOP": "writeLoop", "CAT_STATE_READ_LOOP": "readLoop",
+          "CAT_STATE_TEST_LOOP": "testLoop", "CAT_STATE_RUN_LOOP": "runLoop", "CAT_STATE_HOLD": "hold",
+          "CAT_STATE_FLUSH_IO_WRITE_WAIT": "flushWait", "CAT_STATE_FLUSH_IO_WRITE": "flushWrite",
+          "CAT_STATE_AFTER_FLUSH_RESET": "afterFlushReset", "CAT_STATE_AFTER_FLUSH_OK": "afterFlushOk",
+          "CAT_STATE_AFTER_FLUSH_FORMAT_READ_ARGS": "afterFlushFormatRead",
+          "CAT_STATE_AFTER_FLUSH_FORMAT_TEST_ARGS": "afterFlushFormatTest", "CAT_STATE_PRINT_CMD": "printCmd"}
+USTATE = {"CAT_UNSOLICITED_STATE_IDLE": "idle", "CAT_UNSOLICITED_STATE_FORMAT_READ_ARGS": "formatReadArgs",
+          "CAT_UNSOLICITED_STATE_FORMAT_TEST_ARGS": "formatTestArgs", "CAT_UNSOLICITED_STATE_READ_LOOP": "readLoop",
+          "CAT_UNSOLICITED_STATE_TEST_LOOP": "testLoop", "CAT_UNSOLICITED_STATE_FLUSH_IO_WRITE_WAIT": "flushWait",
+          "CAT_UNSOLICITED_STATE_FLUSH_IO_WRITE": "flushWrite", "CAT_UNSOLICITED_STATE_AFTER_FLUSH_RESET": "afterFlushReset",
+          "CAT_UNSOLICITED_STATE_AFTER_FLUSH_OK": "afterFlushOk",
+          "CAT_UNSOLICITED_STATE_AFTER_FLUSH_FORMAT_READ_ARGS": "afterFlushFormatRead",
+          "CAT_UNSOLICITED_STATE_AFTER_FLUSH_FORMAT_TEST_ARGS": "afterFlushFormatTest"}
+FSMARG = {"CAT_FSM_TYPE_ATCMD": ".cmd", "CAT_FSM_TYPE_UNSOLICITED": ".uns"}
+# C function -> Lean term returning St x Int (status-returning functions) ...
+STATUS_FN = {"error_state": "errorState D s i", "process_idle_state": "processIdleState s i", "parse_prefix": "parsePrefix D s i",
+             "parse_command": "parseCommand D s i", "update_command": "updateCommand D s",
+             "wait_read_acknowledge": "waitReadAcknowledge s i", "search_command": "searchCommand D s",
+             "command_found": "commandFound D s", "command_not_found": "commandNotFound D s",
+             "parse_command_args": "parseCommandArgs D s i", "parse_write_args": "parseWriteArgs D s i",
+             "format_read_args": "formatReadArgs D s {f} i", "wait_test_acknowledge": "waitTestAcknowledge D s i",
+             "format_test_args": "formatTestArgs D s {f}", "process_write_loop": "processWriteLoop D s i",
+             "process_read_loop": "processReadLoop D s {f} i", "process_test_loop": "processTestLoop D s {f} i",
+             "process_run_loop": "processRunLoop D s i", "process_hold_state": "processHoldState D s",
+             "process_io_write_wait": "processIoWriteWait s", "process_io_write": "processIoWrite D s i",
+             "unsolicited_process_io_write_wait": "unsolicitedProcessIoWriteWait s",
+             "unsolicited_process_io_write": "unsolicitedProcessIoWrite D s i"}
+# ... and void functions (the model's ghost events are part of the template)
+VOID_FN = {"reset_state": "(resetState s).emit .ackDone", "ack_ok": "ackOk D s",
+           "start_processing_format_read_args": "startFormatRead D s {f}",
+           "start_processing_format_test_args": "startFormatTest D s {f}", "print_cmd_list": "printCmdList D s",
+           "check_unsolicited_buffers": "checkUnsolicitedBuffers D s", "unsolicited_reset_state": "unsolicitedResetState s",
+           "end_processing_with_ok": "endOk D s {f}"}
+
+
+def _find_switch(body):
+    for st in body.get("inner", []):
+        if st.get("kind") == "SwitchStmt":
+            return st
+    raise Unrecognised("no switch statement")
+
+
+def _call_of(expr):
+    e = strip(expr)
+    if e.get("kind") != "CallExpr":
+        raise Unrecognised("not a call")
+    callee = strip(e["inner"][0])
+    name = callee.get("referencedDecl", {}).get("name")
+    fsm = None
+    for a in e["inner"][2:]:
+        a = strip(a)
+        nm = a.get("referencedDecl", {}).get("name")
+        if nm in FSMARG:
+            fsm = FSMARG[nm]
+        else:
+            raise Unrecognised("unexpected argument in dispatch call to %s" % name)
+    return name, fsm
+
+
+def _arm_term(stmts, default_status):
+    """one switch arm -> Lean term of type St x Int"""
+    sts = [x for x in stmts if x.get("kind") != "BreakStmt" and not is_noise(x)]
+    if not sts:
+        return "(s, %s)" % default_status if default_status else None
+    first = strip(sts[0])
+    if first.get("kind") == "BinaryOperator" and first.get("opcode") == "=" and len(sts) == 1:
+        # s = f(self[, fsm]);
+        name, fsm = _call_of(first["inner"][1])
+        if name not in STATUS_FN:
+            raise Unrecognised("dispatch to unknown function %s" % name)
+        return STATUS_FN[name].replace("{f}", fsm or "?")
+    if first.get("kind") == "CallExpr":
+        name, fsm = _call_of(first)
+        if name not in VOID_FN:
+            raise Unrecognised("dispatch to unknown void function %s" % name)
+        term = VOID_FN[name].replace("{f}", fsm or "?")
+        if len(sts) == 1:
+            if not default_status:
+                raise Unrecognised("void call without status")
+            return "(%s, %s)" % (term, default_status)
+        second = strip(sts[1])
+        if len(sts) == 2 and second.get("kind") == "BinaryOperator" and second.get("opcode") == "=":
+            v = strip(second["inner"][1]).get("referencedDecl", {}).get("name")
+            if v and v.startswith("CAT_STATUS_"):
+                return "(%s, Gen.%s)" % (term, v)
+        raise Unrecognised("unexpected statements after void call")
+    raise Unrecognised("unrecognised dispatch arm")
+
+
+def t4(ast):
+    out = []
+    for fn, states, lean_name, field, styp, default_status in (
+            ("cat_service", CSTATE, "commandDispatch", "state", "CState", None),
+            ("unsolicited_events_service", USTATE, "unsolicitedDispatch", "ustate", "UState", "Gen.CAT_STATUS_OK")):
+        _, body = find_fn(ast, fn)
+        sw = _find_switch(body)
+        arms = switch_arms(sw, None, None)
+        seen = {}
+        for labels, stmts in arms:
+            for lb in labels:
+                if lb == "default":
+                    continue
+                if lb not in states:
+                    raise Unrecognised("unknown state %s in %s" % (lb, fn))
+                term = _arm_term(stmts, default_status)
+                if "?" in term:
+                    raise Unrecognised("missing fsm argument in %s" % fn)
+                seen[states[lb]] = term
+        missing = [v for v in states.values() if v not in seen]
+        if missing:
+            raise Unrecognised("states without an arm in %s: %s" % (fn, missing))
+        lines = ["def %s (D : Desc) (s : St) (i : SvcIn) : St × Int :=" % lean_name, "  match s.%s with" % field]
+        for v in states.values():
+            lines.append("  | .%s => %s" % (v, seen[v]))
+        out.append("\n".join(lines))
+    hdr = ("/-\n  GENERATED by tools/translate.py from the two state switches of src/cat.c (T4). Do not edit.\n"
+           "  `Proofs/Dispatch.lean` proves these equal to the hand-written dispatchers of the model.\n-/\n"
+           "import CatVerif.Model.Fsm\nnamespace Cat.Gen\nopen Cat\n\n")
+    return hdr + "\n\n".join(out) + "\n\nend Cat.Gen\n"
+
+
+def regenerate_dispatch(ast=None):
+    try:
+        txt = t4(ast or load_ast())
+        status = "translated"
+    except Exception as ex:
+        if not os.path.exists(EXPECTED_DISPATCH):
+            return {"T4": "failed: " + repr(ex)[:200]}
+        txt = open(EXPECTED_DISPATCH).read()
+        status = "fallback to expected text: " + repr(ex)[:200]
+    with lib.Lock("gen"):
+        old = open(GEN_DISPATCH).read() if os.path.exists(GEN_DISPATCH) else ""
+        if old != txt:
+            with open(GEN_DISPATCH, "w") as f:
+                f.write(txt)
+    return {"T4": status}
+
+
 def expected_defs():
     """name -> definition text from the committed expected copy (for fallbacks)"""
     txt = open(EXPECTED).read()
@@ -645,6 +798,7 @@ def regenerate():
             with open(GEN, "w") as f:
                 f.write(txt)
     exp = open(EXPECTED).read() if os.path.exists(EXPECTED) else ""
+    rep.update(regenerate_dispatch())
     fall = {k: v for k, v in rep.items() if not v.startswith("translated")}
     return {"status": "ok", "changed_vs_expected": txt != exp, "fallbacks": fall, "items": len(rep),
             "sha": hashlib.sha256(txt.encode()).hexdigest()[:12]}
